@@ -417,10 +417,21 @@ def bytes_(local, sc, cfg, hev, wire):
     n = cfg.n
     lines, origin = [f"reset {cfg.cap}"], [None]
     win = {r: [] for r in range(n)}
+    hstack = {r: [] for r in range(n)}
+    from lib import traffic as T
     for ev in hev:
         k, r = ev.kind, ev.r
         lab = None
-        if k in ("k:as+", "k:bc+", "k:hnr+", "k:fl+", "k:lp+"):
+        if k in T.HOPEN:
+            hstack[r].append(k)
+        elif k in T.HCLOSE:
+            if hstack[r]:
+                hstack[r].pop()
+        elif k == "k:lp+":
+            # a local_progress the program did not call (e.g. from inside a back-pressure wait) is no flush point
+            user = bool(hstack[r]) and hstack[r][-1] in ("P", "W")
+            win[r].append("lp" if user else "lx")
+        elif k in ("k:as+", "k:bc+", "k:hnr+", "k:fl+"):
             win[r].append(k[2:4])
         elif k in ("k:as-", "k:bc-", "k:hnr-", "k:fl-", "k:lp-"):
             if win[r]:
